@@ -91,7 +91,7 @@ Dev(x) == Cardinality({g \in 1..Len(Groups) : Deviates(x, g)})
 Baseline(x) == IF x.nll = "cfit_cached" THEN "cfit" ELSE IF x.nll = "cfit" THEN "cfit" ELSE "default"
 
 \* covering selection (what the harness executes; everything is enumerated):
-\* quick    = one group at a time (XLA without no_id_cached) plus three mixed
+\* quick    = one group at a time (XLA without no_id_cached) plus four mixed
 \*            strategies;
 \* thorough = pairs of groups, where the expensive directions (XLA, lazily
 \*            batched data, cached likelihood models) are combined with three
@@ -103,6 +103,9 @@ Quick(x) ==
        /\ ~x.lazy_call /\ x.nll = "default" /\ ~x.float_shape
     \/ /\ Dev(x) = 2 /\ x.lazy_call /\ x.use_tf_function /\ x.no_id_cached /\ ~x.jit_compile
     \/ /\ Dev(x) = 2 /\ x.nll = "cached_amp" /\ x.float_shape
+    \* the strategy that computes the angles inside the traced graph (unknown batch size)
+    \/ /\ Dev(x) = 2 /\ x.amp_model = "p4_directly" /\ x.use_tf_function /\ ~x.no_id_cached /\ ~x.jit_compile
+       /\ ~x.lazy_call /\ x.nll = "default" /\ ~x.float_shape
 Thorough(x) ==
     \/ Quick(x)
     \/ Dev(x) <= 1
